@@ -246,6 +246,8 @@ impl Graph {
     /// shape signature used to pick representatives for compilation
     pub fn signature(&self) -> String {
         let mut feats: Vec<String> = vec![];
+        // the root is re-entered from another state (a token can be "in the middle" at the root)
+        let root_incoming = self.states.iter().enumerate().any(|(i, st)| i != self.root && (st.normal.iter().any(|(_, t)| *t == self.root) || st.eoi == Some(self.root)));
         for (i, st) in self.states.iter().enumerate() {
             let nedges = st.normal.iter().filter(|(_, t)| *t != i).count();
             let selfloop = st.normal.iter().any(|(_, t)| *t == i);
@@ -258,8 +260,10 @@ impl Graph {
                 }
                 hole |= h;
             }
+            // an inline comparison with one open side (class anchored at 0x00 or ending at 0xff)
+            let one_sided = !lut && st.normal.iter().any(|(rs, _)| rs.first().map_or(false, |r| r.0 == 0) != rs.last().map_or(false, |r| r.1 == 255));
             feats.push(format!(
-                "{}{}{}{}{}{}{}",
+                "{}{}{}{}{}{}{}{}{}",
                 match nedges { 0 => "0", 1 => "1", 2 => "2", _ => "T" },
                 if selfloop { "L" } else { "" },
                 if lut { "U" } else { "" },
@@ -267,6 +271,8 @@ impl Graph {
                 if st.early.is_some() && st.accept.is_some() { "B" } else if st.early.is_some() { "E" } else if st.accept.is_some() { "A" } else { "" },
                 if st.eoi.is_some() { "$" } else { "" },
                 if i == self.root { "R" } else { "" },
+                if i == self.root && root_incoming { "I" } else { "" },
+                if one_sided { "S" } else { "" },
             ));
         }
         feats.sort();
